@@ -18,9 +18,12 @@ def main():
             print("==", rep.qualname, rep.status, rep.detail, "paths", rep.paths, "obligs", len(rep.obligs),
                   "gen %.2fs" % rep.time_s)
             t0 = time.time()
-            res = smt.discharge(rep.obligs)
+            res = smt.discharge([o for o in rep.obligs if o.kind != "canary"]) + smt.discharge(
+                [o for o in rep.obligs if o.kind == "canary"], rlimit=2_000_000, want_model=False)
             bad = [r for r in res if r["result"] != "unsat" and not r["name"].endswith("/canary")]
-            print("   discharged %d/%d in %.2fs" % (len(res) - len(bad), len(res), time.time() - t0))
+            can = [r["result"] for r in res if r["name"].endswith("/canary")]
+            print("   discharged %d/%d in %.2fs  canary(consistent path ends)=%d/%d" % (
+                len(res) - len(bad) - len(can), len(res) - len(can), time.time() - t0, sum(1 for x in can if x != "unsat"), len(can)))
             seen = set()
             for r in bad:
                 if (r["name"], r["hash"]) in seen:
